@@ -281,11 +281,19 @@ def immutable_views(ctx, pairs, rng):
             vp = views_problem(cls(it), list(pairs), ks)
             if vp:
                 ctx.violation(f"immutable-view|{cname}-from-{iname}|{vp}", {"pairs": pairs}, "")
-    # mapping constructor
+    # mapping constructor: a dict and other Mapping implementations
+    import collections
+    import types
     d = dict(pairs)
-    vp = views_problem(MultiMapping(d), list(d.items()), ks)
-    if vp:
-        ctx.violation(f"immutable-view|from-mapping|{vp}", {"pairs": pairs}, "")
+    for mname, m in (("dict", d), ("MappingProxyType", types.MappingProxyType(d)), ("ChainMap", collections.ChainMap(d)), ("UserDict", collections.UserDict(d)),
+                     ("OrderedDict", collections.OrderedDict(d))):
+        for cname, cls in (("MultiMapping", MultiMapping), ("MutableMultiMapping", MutableMultiMapping), ("QueryParams", QueryParams), ("FormData", FormData)):
+            try:
+                vp = views_problem(cls(m), list(d.items()), ks)
+            except Exception as e:
+                vp = f"exception-{type(e).__name__}"
+            if vp:
+                ctx.violation(f"immutable-view|{cname}-from-{mname}|{vp}", {"pairs": pairs}, "")
     # query string round trip
     q = QueryParams(list(pairs))
     s = str(q)
